@@ -1,7 +1,7 @@
 """C18 — structural equality compares whole trees.
 
 Cases: for random trees t, every node x every kind of single edit (name, content, tail, prefix,
-one key of attributes / extras / nsmap added, changed or removed, the id, a child added, removed,
+one key of attributes / extras / nsmap added, changed, removed or replaced by another key, the id, a child added, removed,
 two adjacent children exchanged) applied to an independently built twin or to t.copy(), on either
 side; equal pairs built independently (also with every dict in another insertion order) and via
 Node.copy(); the same object; pairs sharing one child object.  Both argument orders always.
@@ -16,7 +16,7 @@ from harness.common import clist, cnat
 
 NAMES = ["a", "b", "dataset"]
 KEYS = ["k", "id", "x:y", "scope"]
-VALS = ["", "1", "v", "w w", "é中"]
+VALS = ["", "1", "v", "w w", "é中", None, None]      # dict values may be None (e.g. extras set by callers)
 TEXTS = [None, "", "t", "some text", "é"]
 PREFIXES = [None, "eml", "x"]
 HEADER = "From MP Require Import Model.EqualRun.\n"
@@ -107,7 +107,9 @@ def other(rng, pool, cur):
 
 
 def dict_edit(rng, get, put):
-    """returns a list of (kind, thunk) applicable to the dict obtained by get()"""
+    """returns a list of (kind, thunk) applicable to the dict obtained by get(): add, remove,
+    change, rekey on a random entry, and remove/change/rekey once more on a None-valued entry
+    when there is one (None versus "missing" is the classic confusion)."""
     d = get()
     eds = []
     free = [k for k in KEYS if k not in d]
@@ -115,12 +117,24 @@ def dict_edit(rng, get, put):
         k0 = rng.choice(free)
         v0 = rng.choice(VALS)
         eds.append(("add", lambda: put(k0, v0)))
+
+    def on_entry(suffix, key):
+        eds.append(("remove" + suffix, lambda: d.pop(key)))
+        v2 = other(rng, VALS, d[key])
+        eds.append(("change" + suffix, lambda: put(key, v2)))
+        if free:
+            k4 = rng.choice(free)
+            v4 = d[key] if rng.random() < 0.5 else rng.choice(VALS)
+
+            def rekey():
+                d.pop(key)
+                put(k4, v4)
+            eds.append(("rekey" + suffix, rekey))
     if d:
-        k1 = rng.choice(list(d))
-        eds.append(("remove", lambda: d.pop(k1)))
-        k2 = rng.choice(list(d))
-        v2 = other(rng, VALS, d[k2])
-        eds.append(("change", lambda: put(k2, v2)))
+        on_entry("", rng.choice(list(d)))
+        nones = [k for k, v in d.items() if v is None]
+        if nones:
+            on_entry("-of-none", rng.choice(nones))
     return eds
 
 
@@ -156,11 +170,24 @@ def edits_for(rng, node, is_root):
 
 
 # ------------------------------------------------------------------ Coq literals
+NONE_VALUE = "[0; 78; 111; 110; 101]%N"    # a dict value None, injected into pystr as "\\0None" (no generated string starts with NUL)
+
+
+def coq_val(v):
+    return NONE_VALUE if v is None else common.cstr(v)
+
+
+def coq_dict(d):
+    return clist(common.cpair(common.cstr(k), coq_val(v)) for k, v in d)
+
+
 def coq_otree(node, objmap):
     o = objmap.setdefault(id(node), len(objmap))
-    sn = {"id": node.id, "name": node.name, "content": node.content, "tail": node.tail, "prefix": node.prefix,
-          "attrs": list(node.attributes.items()), "extras": list(node.extras.items()), "nsmap": list(node.nsmap.items())}
-    return "(OT " + cnat(o) + " " + NL.coq_nd(sn) + " " + clist(coq_otree(c, objmap) for c in node.children) + ")"
+    nd = ("{| n_id := " + common.cstr(node.id) + "; n_name := " + common.cstr(node.name) +
+          "; n_content := " + common.copt(node.content) + "; n_tail := " + common.copt(node.tail) +
+          "; n_prefix := " + common.copt(node.prefix) + "; n_attrs := " + coq_dict(node.attributes.items()) +
+          "; n_extras := " + coq_dict(node.extras.items()) + "; n_nsmap := " + coq_dict(node.nsmap.items()) + " |}")
+    return "(OT " + cnat(o) + " " + nd + " " + clist(coq_otree(c, objmap) for c in node.children) + ")"
 
 
 def observe(a, b):
@@ -264,11 +291,11 @@ def run(ctx):
     thorough = ctx.tier == "thorough"
     ctx.extra["rule"] = ("random trees (<= %d nodes, depth <= 3, 3 names, dict keys from 4, values from 5 incl. non-ASCII); per tree: "
                          "independent twin, twin with shuffled dict orders, Node.copy(), same object, shared child object; per node "
-                         "%s single-edit kinds (name, content, tail, prefix, id, attrs/extras/nsmap key add/remove/change, child "
+                         "%s single-edit kinds (name, content, tail, prefix, id, attrs/extras/nsmap key add/remove/change/rekey (values may be None), child "
                          "add/remove/adjacent swap) on either side of a twin or a copy; both argument orders; non-trivial = distinct "
-                         "(tree, node, edit kind, side, via copy)") % (10 if thorough else 7, "all" if thorough else "8 sampled of the")
+                         "(tree, node, edit kind, side, via copy)") % (10 if thorough else 7, "all" if thorough else "9 sampled of the")
     col = Collector(ctx)
-    gen_cases(ctx, col, 160 if thorough else 45, 10 if thorough else 7, None if thorough else 8)
+    gen_cases(ctx, col, 160 if thorough else 45, 10 if thorough else 7, None if thorough else 9)
     # (B) correspondence inside Coq
     pairs = col.pairs
     shard = 150
